@@ -8,8 +8,18 @@ from harness.common import bud
 from harness.sessions import SB
 
 PROP = "C09"
-MODULES = ["CassisModel.Properties.C09", "CassisModel.Properties.C15", "CassisModel.Properties.C09Doc", "CassisModel.Properties.C09DocJson"]
+MODULES = ["CassisModel.Properties.C09", "CassisModel.Properties.C15", "CassisModel.Properties.C09Doc", "CassisModel.Properties.C09DocJson", "CassisModel.Properties.C09Write"]
 THEOREMS = [
+    "Cassis.Traverse.findAllFs_duplicate_not_ok",
+    "Cassis.Traverse.findAllFs_duplicate_raises",
+    "Cassis.Traverse.findAllFs_ok_iff",
+    "Cassis.Xmi.saveXmi_duplicate_raises",
+    "Cassis.Json.saveJson_duplicate_raises",
+    "Cassis.Xmi.saveXmi_ids_distinct",
+    "Cassis.Json.saveJson_ids_distinct",
+    "Cassis.Xmi.kept_ids_written",
+    "Cassis.Json.kept_ids_written_json",
+    "Cassis.Cas.ids_history_write",
     "Cassis.Json.loadJson_reseeds",
     "Cassis.Json.sofaPass_bounded",
     "Cassis.Json.fsPass_bounded",
